@@ -6,6 +6,7 @@ simulator; after every segment (at quiescence) the executed events, the clock, t
 notification stream are compared with the reference interpreter, and the concatenated trace with one
 uninterrupted reference run.
 """
+from vlib.simharness import num
 ID = "C03"
 LEVEL = "exploration"
 TECHNIQUE = "runtime monitor: per-segment trace/clock/state of the real simulator under generated segmentation schedules vs reference DEVS interpreter; pauses forced by handler gates"
@@ -31,7 +32,7 @@ def gen_case(rng, tier, i):
     from vlib.proggen import gen_program
     from vlib.refdevs import Ref, tnum
     clock = ["float", "int", "duration"][i % 3]
-    prog = gen_program(rng, clock=clock, n_events=rng.randint(4, 30), with_bad=rng.random() < 0.3)
+    prog = gen_program(rng, clock=clock, n_events=rng.randint(4, 30), with_bad=rng.random() < 0.3, bigint=True)
     ref = Ref(prog)
     ref.initialize()
     ref.run()
@@ -170,18 +171,18 @@ def run_case(case, ctx):
                 ctx.viol(f"legal-command-refused:{name}:{out}", {**w, "before": before})
                 return
             want_seg = [(t, cl) for t, cl, _ in seg]
-            late = [x for x in got_seg if x[1] > float(ref.end)]
+            late = [x for x in got_seg if x[1] > num(ref.end)]
             if late:
-                ctx.viol("event-later-than-the-replication-end-executed", {**w, "events": late, "end": float(ref.end)})
+                ctx.viol("event-later-than-the-replication-end-executed", {**w, "events": late, "end": num(ref.end)})
                 return
             if not compare_traces(ctx, got_seg, want_seg, w, what="segment"):
                 return
             if name == "step" and not seg:
-                ok_clock = before["clock"] <= snap["clock"] <= float(ref.end)
+                ok_clock = before["clock"] <= snap["clock"] <= num(ref.end)
             else:
-                ok_clock = snap["clock"] == float(ref.clock)
+                ok_clock = snap["clock"] == num(ref.clock)
             if not ok_clock:
-                ctx.viol(f"clock-after-segment:{name}", {**w, "got": snap["clock"], "want": float(ref.clock)})
+                ctx.viol(f"clock-after-segment:{name}", {**w, "got": snap["clock"], "want": num(ref.clock)})
                 return
             ended_note = any(n[0] == "END_REPLICATION_EVENT" for n in h.nlog[nfirst:])
             if ref.state == "ENDED":
@@ -203,8 +204,8 @@ def run_case(case, ctx):
             ctx.count("compositions_judged")
             if not compare_traces(ctx, h.trace(), [(t, cl) for t, cl, _ in full.trace], where, what="composition"):
                 return
-            if h.snapshot()["clock"] != float(full.clock):
-                ctx.viol("composition:final-clock", {**where, "got": h.snapshot()["clock"], "want": float(full.clock)})
+            if h.snapshot()["clock"] != num(full.clock):
+                ctx.viol("composition:final-clock", {**where, "got": h.snapshot()["clock"], "want": num(full.clock)})
                 return
         if not check_clock_monotone(h, ctx, where):
             return
